@@ -301,6 +301,17 @@ def compare_shard(pid, casefile, iout, mout, status, oc, nontrivial_key=None, ke
             t = parse_tokens(l)
             if "id" in t:
                 I[t["id"]] = t
+    cons = casefile + ".console"
+    if os.path.exists(cons):
+        data = open(cons, "rb").read()
+        parts = data.split(b"\n@@case ")
+        for part in parts[1:]:
+            nl = part.find(b"\n")
+            cid = part[:nl].decode(errors="replace")
+            if cid in I:
+                I[cid]["con"] = I[cid].get("con", "") + part[nl + 1:].hex()
+    for t in I.values():
+        t.setdefault("con", "")
     if status["impl_rc"] != 0 and len(I) < len(cases):
         oc.broken.append((casefile, "implementation driver rc=%s produced %d of %d observations" % (status["impl_rc"], len(I), len(cases))))
     for line in cases:
